@@ -63,11 +63,17 @@ def worlds(tier):
     ws.append(w.W("2req-1model-b[2]-nonzero-scheduler-runtime", g, GPU1, "CLOCKWORK", models={"M0": model([2])}, tasks=t, preload={"0:0": ["M0"]}, split=6, weight=30, retry_loops=True,
                   sched_runtime=["sym", 0, 3]))
     if tier == "thorough":
-        g, t = reqs(4, models=("M0", "M1"), release=["sym", 0, 4], deadline=["sym", 0, 12])
-        ws.append(w.W("4req-2models-both-loaded-two-workers", g, GPU1x2, "CLOCKWORK", goal="least_slack", models={"M0": model([2, 1]), "M1": model([1, 2])}, tasks=t,
+        # four requests: two are present from the start, the other two arrive together later (fewer arrival orders, same batching decisions)
+        def reqs4(models):
+            gs = [w.G("G0", ["Q0"], [], release=0, deadline=["sym", 0, 12]), w.G("G1", ["Q1"], [], release=["sym", 0, 1], deadline=["sym", 0, 12]),
+                  w.G("G2", ["Q2"], [], release=["sym", 1, 3], deadline=["sym", 6, 14]), w.G("G3", ["Q3"], [], release=["sym", 1, 3], deadline=["sym", 6, 14])]
+            return gs, {f"Q{i}": {"model": models[i % len(models)]} for i in range(4)}
+
+        g, t = reqs4(("M0", "M1"))
+        ws.append(w.W("4req-2models-both-loaded-two-workers", g, GPU1x2, "CLOCKWORK", goal="least_slack", models={"M0": model([2, 1], rts={2: 3, 1: 2}), "M1": model([1, 2], rts={2: 3, 1: 2})}, tasks=t,
                       preload={"0:0": ["M0", "M1"], "0:1": ["M0", "M1"]}, split=10, weight=800, retry_loops=True))
-        g, t = reqs(4, release=["sym", 0, 4], deadline=["sym", 0, 14])
-        ws.append(w.W("4req-1model-b[1,2]-clockwork", g, GPU1, "CLOCKWORK", models={"M0": model([1, 2])}, tasks=t, preload={"0:0": ["M0"]}, split=10, weight=800, retry_loops=True))
+        g, t = reqs4(("M0",))
+        ws.append(w.W("4req-1model-b[1,2]-clockwork", g, GPU1, "CLOCKWORK", models={"M0": model([1, 2], rts={2: 3, 1: 2})}, tasks=t, preload={"0:0": ["M0"]}, split=10, weight=800, retry_loops=True))
     return ws
 
 
